@@ -58,6 +58,28 @@ PREFIX = {
     'a12.keypair': ('alice', (1, 2), lambda: [W.p_create_key_pair(**W.rsa_pair_attrs())], {}),
     'g14.create': ('carol', (1, 4), lambda: [W.p_create()], {'_groups': ['g1']}),
 }
+# the header family: every optional request-header field at a non-default value - none of them may
+# outlive its request (the probes below that are sensitive to them: multi-item batches whose first
+# item fails, responses with a size, requests without credentials)
+BEO = E.BatchErrorContinuationOption
+_CRED = W.cobjects.Credential(
+    credential_type=E.CredentialType.USERNAME_AND_PASSWORD,
+    credential_value=W.cobjects.UsernamePasswordCredential(username='mallory', password='pw'))
+PREFIX.update({
+    'a12.continue': ('alice', (1, 2), lambda: [W.p_discover()], {'error_option': BEO.CONTINUE}),
+    'b12.continue_fail_create': ('bob', (1, 2), lambda: [W.p_get('999'), W.p_create()],
+                                 {'error_option': BEO.CONTINUE}),
+    'a20.continue': ('alice', (2, 0), lambda: [W.p_query()], {'error_option': BEO.CONTINUE}),
+    'a12.stop': ('alice', (1, 2), lambda: [W.p_discover()], {'error_option': BEO.STOP}),
+    'a12.order_true': ('alice', (1, 2), lambda: [W.p_locate()], {'order_option': True}),
+    'a12.order_false': ('alice', (1, 2), lambda: [W.p_locate()], {'order_option': False}),
+    'a12.maxsize_small': ('alice', (1, 2), lambda: [W.p_get('1')], {'max_response_size': 64}),
+    'a12.maxsize_big': ('alice', (1, 2), lambda: [W.p_discover()], {'max_response_size': 1 << 20}),
+    'a12.async_false': ('alice', (1, 2), lambda: [W.p_locate()], {'async_indicator': False}),
+    'a12.timestamp': ('alice', (1, 2), lambda: [W.p_locate()], {'time_stamp': W.T0}),
+    'a12.credentials': ('alice', (1, 2), lambda: [W.p_locate()], {'credentials': [_CRED]}),
+    'a12.ids_all': ('alice', (1, 2), lambda: [W.p_locate()], {'batch_ids': 'all'}),
+})
 # engine seam (no codec on the way in): header handling for versions the decoder never lets through
 PREFIX['e.a15.query'] = ('alice', (1, 5), lambda: [W.p_query()], {'_seam': 'engine'})
 PREFIX['e.b30.create'] = ('bob', (3, 0), lambda: [W.p_create()], {'_seam': 'engine'})
@@ -116,6 +138,15 @@ _add('a14.set_attribute1', 'alice', (1, 4), lambda: [W.p_set_attribute('1', W.AT
 _add('g12.locate', 'carol', (1, 2), lambda: [W.p_locate()], _groups=['g1'])
 _add('a12.batch_get_first', 'alice', (1, 2), lambda: [W.p_get(), W.p_create()],
      error_option=E.BatchErrorContinuationOption.CONTINUE)
+
+# header-sensitive probes
+_add('a12.batch_fail_first', 'alice', (1, 2), lambda: [W.p_get('999'), W.p_create()])
+_add('b20.batch_fail_first', 'bob', (2, 0), lambda: [W.p_get('999'), W.p_create()])
+_add('a12.batch_fail_first_stop', 'alice', (1, 2), lambda: [W.p_get('999'), W.p_create()],
+     error_option=BEO.STOP)
+_add('a14.batch_fail_middle', 'alice', (1, 4),
+     lambda: [W.p_create(), W.p_activate('999'), W.p_get(), W.p_destroy()])
+_add('a12.batch_single_noid', 'alice', (1, 2), lambda: [W.p_locate()], batch_ids='none')
 
 _add('e.a15.query', 'alice', (1, 5), lambda: [W.p_query()], _seam='engine')
 _add('e.b15.attr_list1', 'bob', (1, 5), lambda: [W.p_get_attribute_list('1')], _seam='engine')
@@ -196,7 +227,7 @@ def _key(prefix, probe):
 
 
 CORE = ['a12.create', 'b20.create', 'a12.batch_create_get', 'a10.get_missing', 'e.a15.query',
-        'a20.attr_list']
+        'a20.attr_list', 'b12.continue_fail_create']
 
 
 def histories(tier):
@@ -249,7 +280,7 @@ def run(tier, seed):
         max_depth=depth, prefix_alphabet=len(prefixes), probes=len(probes),
         distinct_outcomes=len(outcomes), exhaustive=True,
         explanation="states = prefix histories (quick: all of length 0..1 and length 2 with the first request "
-                    "from a 6-letter core; thorough: all of length 0..2 and length 3 with the first two "
+                    "from a 7-letter core; thorough: all of length 0..2 and length 3 with the first two "
                     "from the core; max_depth=%d, alphabet=%d); "
                     "per state every probe is executed twice on the real engine: after the prefix "
                     "and on a fresh engine over a copy of the same database" % (depth, len(prefixes)),
